@@ -321,6 +321,10 @@ claim("C18",
   "(2) On the proved endpoint model: kwargs_rename_invariant (renaming the python names of ALL parameters of Endpoint.get_kwargs, the argument list and the {py} placeholders of the path by a renaming injective on the names "
   "involved and fixing `body` leaves the request unchanged - the model depends on wire names only; Codec.v never mentions python names at all). (3) python_identifier_avoids: for every candidate of the regenerated table that is a "
   "Python keyword or a word of utils.RESERVED_WORDS, python_identifier c differs from c (vm_compute reflection + soundness lemma). "
+  "(4) spelling_avoids: for every regenerated pair (document spelling s, template identifier N) with s in {_N, __N, N_, ' N', -N, N-, upper/title/capitalised/lower case of N}: python_identifier s field_ is never a keyword / reserved word, "
+  "a spelling that starts with an underscore never becomes N (the field_ prefix applies because the test reads the RAW value), and s can only land on a template identifier by having N's own python name (vm_compute reflection over ~1200 pairs). "
+  "The implementation's PythonIdentifier is compared with the Coq model on every candidate and every spelling on every run (so moving the underscore test after snake_case, dropping a step, ... is a correspondence VIOLATION, followed by a "
+  "targeted search that places the disagreeing spellings everywhere and reports the concrete capture, e.g. `_body` + request body -> duplicate argument). "
   "Search: EXHAUSTIVE over the finite regenerated candidate set (translate/gen_names.py: every identifier - names, arguments, attributes, keyword-argument names, imports - of every module of a probe client generated by the tree "
   "under verification, per scope, ast cross-checked with symtable; all keywords, soft keywords, builtins, case variants; ~450 names) x {model property required/optional of 4 kinds, typed/untyped additionalProperties, multipart body "
   "model property, parameter in path/query/header/cookie without and with a JSON body, raw-name pair (the only way an upper-case identifier becomes a python name)}. Every (candidate, placement) class / operation is generated by the real "
